@@ -47,7 +47,8 @@ EvMatches(se, le) ==
                  [] se.n = "OnOpenMessage" -> se.m.rid = le.rid /\ se.m.caps = le.caps
                  [] se.n \in {"OnEstablished", "OnClose"} -> se.k = le.k
                  [] OTHER -> TRUE
-       [] se.e = "dial" -> se.p = le.p /\ se.k = le.k
+       \* a dial goes to the configured port, from the configured local address (if any)
+       [] se.e = "dial" -> se.p = le.p /\ se.k = le.k /\ le.c = cfg[se.p].port /\ le.r = cfg[se.p].localAddr
        [] se.e = "cbx" -> se.p = le.p /\ se.n = le.n /\ se.k = le.k
        [] se.e = "ret" ->
             /\ se.p = le.p /\ se.n = le.n /\ se.k = le.k
